@@ -9,3 +9,16 @@ import NdnGen.C07
 #print axioms Ndn.C07.strict_implies_accept_partial
 #print axioms Ndn.C07.overrun_accepted_counterexample
 #print axioms Ndn.Gen.C07.packet_schemas_ok
+#print axioms Ndn.C07.strict_accepts_well_nested
+#print axioms Ndn.C07.strict_agrees
+#print axioms Ndn.C07.strict_refines
+#print axioms Ndn.C07.strict_error_agrees
+#print axioms Ndn.C07.only_overruns_differ
+#print axioms Ndn.C07.accept_iff_strict
+#print axioms Ndn.C07.packet_strict_agrees
+#print axioms Ndn.C07.packet_strict_refines
+#print axioms Ndn.C07.packet_only_overruns_differ
+#print axioms Ndn.C07.packet_strict_accepts_well_nested
+#print axioms Ndn.C07.packet_accept_iff_strict
+#print axioms Ndn.C07.shipped_decoders_strict
+#print axioms Ndn.C07.shipped_only_overruns_differ
